@@ -23,7 +23,7 @@ DEV_CLAUSES = {
     "TargetCTLAccepted", "AbsTargetEmptyHostAccepted",
     "TEonHTTP10Accepted", "HeadRequestBodySkipped", "ChunkExtCTLAccepted",
     "LimitByCallPosition", "LimitCutBeforeLF", "DataAfterCloseSegDependent",
-    "BodyError5xx", "StalePauseStall", "LaxChunkCRSegDependent",
+    "BodyError5xx", "StalePauseStall", "LaxChunkCRSegDependent", "ErrorTextNotEncodable",
 }
 
 
@@ -648,6 +648,8 @@ def judge_groups(ctx: Any, groups: List[Group], prop: str, label: str) -> Dict[s
     for g, t, v in zip(groups, traces, verdicts):
         info = v.info if isinstance(v.info, (list, tuple)) and len(v.info) == 2 else ((), ())
         devs, drift = info
+        allruns = [[e["kind"], e["cutsets"][0]] for e in t["events"] if e["cutsets"]]
+        metered = any(e["calls"] for e in t["events"])
         notes = ctx.extra.setdefault("permitted_alternatives_and_notes", {})
         for d in drift or ():
             name = str(d[1])
@@ -661,7 +663,8 @@ def judge_groups(ctx: Any, groups: List[Group], prop: str, label: str) -> Dict[s
             ctx.violation(name, f"{name} [{g.mode}]",
                           {"stream": list(g.data), "mode": g.mode, "limits": list(g.lim.key()),
                            "until_eof": g.until_eof, "with_body": g.with_body, "cuts": cuts,
-                           "kind": ev["kind"] if ev else "group", "label": g.label, "src": g.src}, "trace")
+                           "kind": ev["kind"] if ev else "group", "label": g.label, "src": g.src,
+                           "allruns": allruns if ev is None else [], "meter": metered}, "trace")
         if not v.ok:
             clause = v.clause or "Incomplete"
             stats[clause] = stats.get(clause, 0) + 1
@@ -672,6 +675,7 @@ def judge_groups(ctx: Any, groups: List[Group], prop: str, label: str) -> Dict[s
             ctx.violation(clause, f"{clause} [{g.mode}] {g.label}",
                           {"stream": list(g.data), "mode": g.mode, "limits": list(g.lim.key()),
                            "until_eof": g.until_eof, "with_body": g.with_body, "cuts": cuts, "allcuts": allcuts,
+                           "allruns": allruns, "meter": metered,
                            "kind": ev["kind"] if ev else "group", "label": g.label, "src": g.src,
                            "drift": [list(x) for x in (drift or ())]}, "trace")
     return stats
@@ -683,16 +687,27 @@ def replay_detail(ctx: Any, detail: dict) -> int:
     data = bytes(detail["stream"])
     g = Group(detail["mode"], data, lim, until_eof=detail.get("until_eof", False),
               with_body=detail.get("with_body", True), src="replay", label=detail.get("label", ""))
-    cutsets = detail.get("allcuts") or [detail.get("cuts") or []]
-    if detail.get("cuts") is not None and detail["cuts"] not in cutsets:
-        cutsets.append(detail["cuts"])
     kind = detail.get("kind", "parse")
-    harness = ConnHarness(lim) if kind in ("conn", "group") and detail["mode"] == "request" else None
-    for cuts in cutsets:
-        if kind in ("parse", "group"):
-            g.parse(cuts)
-        if kind == "conn" and harness is not None:
+    runs = [(k, c) for k, c in (detail.get("allruns") or [])]
+    if not runs:
+        cutsets = detail.get("allcuts") or [detail.get("cuts") or []]
+        if detail.get("cuts") is not None and detail["cuts"] not in cutsets:
+            cutsets.append(detail["cuts"])
+        runs = [("parse" if kind == "group" else kind, c) for c in cutsets]
+    elif kind != "group":
+        runs = [(kind, detail.get("cuts") or [])] + [r for r in runs if r[0] == kind]
+    harness = None
+    meter = WorkMeter() if detail.get("meter") else None
+    for k, cuts in runs:
+        if k == "conn":
+            harness = harness or ConnHarness(lim)
             g.conn(harness, cuts)
+        elif k == "client":
+            g.client(cuts)
+        else:
+            g.parse(cuts, meter)
+    if meter is not None:
+        meter.close()
     verdicts, _res = validate_batch(TRACE_MODULE, TRACE_CFG, [g.trace()])
     v = verdicts[0]
     devs = [str(d[1]) for d in (v.info[0] if v.info else ())]
